@@ -438,6 +438,10 @@ def run_plans(ctx, res, plans, prop='C01'):
     return records
 
 
+def gen_tables(ctx):
+    common.source_tie('C01')  # small pure functions translated from the source and proved equal to the model (DESIGN 12.8)
+
+
 def run(ctx, res):
     plans = gen_plans(ctx)
     res.rule = ('exhaustive single faults: every phase step x every instruction position x every failure kind admissible at that '
